@@ -66,6 +66,11 @@ var (
 )
 
 func main() {
+	if r := os.Getenv("SYMGO_REPO"); r != "" {
+		// calibration against a scratch copy of the tree; evidence is never written from such a run
+		repoDir = r
+		fmt.Printf("NOTE calibration run against %s (not /repo): no evidence written\n", r)
+	}
 	if len(os.Args) < 2 {
 		fmt.Println("usage: symgo check -prop Cxx -tier quick|thorough | symgo replay -prop Cxx -witness file")
 		os.Exit(2)
@@ -225,7 +230,13 @@ func cmdCheck(args []string) int {
 	workers := fs.Int("workers", 16, "parallel workers")
 	noReplay := fs.Bool("noreplay", false, "skip native replays")
 	solver := fs.String("solver", "z3-new", "z3-new|z3|cvc5")
+	boundsOv := fs.String("bounds", "", "calibration only: override harness bounds, e.g. N=4,K=3 (implies -noevidence)")
+	maxSecOv := fs.Int("maxseconds", 0, "calibration only: override the exploration time budget (implies -noevidence)")
+	noEvidence := fs.Bool("noevidence", false, "do not rewrite evidence/<prop>.json")
 	fs.Parse(args)
+	if *boundsOv != "" || *maxSecOv > 0 || repoDir != "/repo" {
+		*noEvidence = true
+	}
 	t0 := time.Now()
 	seed, _ := strconv.Atoi(os.Getenv("VERIF_SEED"))
 	if t := os.Getenv("VERIF_TIER"); t != "" && *tier == "" {
@@ -285,6 +296,9 @@ func cmdCheck(args []string) int {
 	if *tier == "thorough" {
 		apply(spec.ThoroughCfg)
 	}
+	if *maxSecOv > 0 {
+		cfg.MaxSeconds = *maxSecOv
+	}
 	eng := sym.NewEngine(prog, cfg)
 	eng.WantCoverWitness = true
 	eng.Bounds = map[string]map[string]int{}
@@ -325,6 +339,19 @@ func cmdCheck(args []string) int {
 		b := h.Quick
 		if *tier == "thorough" && h.Thorough != nil {
 			b = h.Thorough
+		}
+		if *boundsOv != "" {
+			nb := map[string]int{}
+			for k, v := range b {
+				nb[k] = v
+			}
+			for _, kv := range strings.Split(*boundsOv, ",") {
+				if i := strings.Index(kv, "="); i > 0 {
+					n, _ := strconv.Atoi(kv[i+1:])
+					nb[kv[:i]] = n
+				}
+			}
+			b = nb
 		}
 		eng.Bounds[h.Entry] = b
 		if h.Solver != "" {
@@ -577,7 +604,9 @@ func cmdCheck(args []string) int {
 	}
 	os.MkdirAll(filepath.Join(verifDir, "evidence"), 0o755)
 	eb, _ := json.MarshalIndent(ev, "", " ")
-	os.WriteFile(filepath.Join(verifDir, "evidence", *prop+".json"), eb, 0o644)
+	if !*noEvidence {
+		os.WriteFile(filepath.Join(verifDir, "evidence", *prop+".json"), eb, 0o644)
+	}
 
 	if os.Getenv("SYMGO_PROGRESS") != "" {
 		for _, f := range eng.ForkSites(25) {
